@@ -106,6 +106,9 @@ func (s *ScopeSchema) ApplyNamespace(externalObjects map[string]*ObjectSchema, n
 	var objectsToApply map[string]*ObjectSchema
 	if namespace == SelfNamespace {
 		objectsToApply = s.Objects()
+		// Linking is the point at which a scope becomes usable: a missing or mismatched root is reported here
+		// (as a panic, like an unknown reference) instead of on the first use.
+		s.RootObject()
 	} else {
 		objectsToApply = externalObjects
 	}
